@@ -59,6 +59,15 @@ mod helpers {
     use std::fmt;
     use yaserde::{YaDeserialize, YaSerialize};
 
+    /// The reply of an operation without an output message: whatever the body holds, nothing is read from it.
+    pub(super) struct NoResponse;
+
+    impl YaDeserialize for NoResponse {
+        fn deserialize<R: std::io::Read>(_reader: &mut yaserde::de::Deserializer<R>) -> Result<Self, String> {
+            Ok(NoResponse)
+        }
+    }
+
     pub(super) async fn send_soap_request<YI, YO, U, P>(
         url: &str,
         credentials: Option<(U, P)>,
